@@ -83,6 +83,9 @@ func runC04(c *Ctx) {
 	fams := families(c.Thorough())
 	corpusC04(c)
 	c04Exhaustive(c)
+	// dangling pointers through typed containers and into optional members that are not set, through ExpandSpec
+	// and ExpandSchema (typed root held in the cache; schema as its own root): an error, never a panic
+	c08ContainerProbes(c)
 	var jobs []childJob
 	defer func() { runChildJobs(c, jobs) }()
 	for i := 0; i < n; i++ {
